@@ -721,6 +721,60 @@ fn barrier_round(seed: u64, threads: usize, reps: usize) -> Option<String> {
     None
 }
 
+/// Concurrent deletes of the SAME artifact while a twin shares all its chunks: `threads` OS threads
+/// call delete(A) at the same moment (barrier).  Exactly one may succeed.  Then every chunk is aged
+/// and gc runs: the twin B must still read back and verify (a double decrement shows up as a
+/// collected live chunk).  Verdict at quiescence.
+fn double_delete_round(seed: u64, threads: usize, nchunks: usize) -> Option<String> {
+    use std::sync::Barrier;
+    let cs = 4usize;
+    let store = TensorStore::new();
+    let config = BlobConfig::new().with_chunk_size(cs).with_gc_min_age(Duration::from_secs(MIN_AGE)).with_gc_batch_size(1_000_000);
+    let rt0 = tokio::runtime::Builder::new_current_thread().enable_all().build().unwrap();
+    let blob = Arc::new(rt0.block_on(BlobStore::new(store.clone(), config)).unwrap());
+    // nchunks distinct chunks
+    let mut d = Vec::with_capacity(nchunks * cs);
+    for i in 0..nchunks {
+        d.extend_from_slice(&[(seed as u8), (i >> 8) as u8, i as u8, 0x5a]);
+    }
+    let a = rt0.block_on(blob.put("a", &d, PutOptions::default())).unwrap();
+    let b = rt0.block_on(blob.put("b", &d, PutOptions::default())).unwrap();
+    let barrier = Arc::new(Barrier::new(threads));
+    let handles: Vec<_> = (0..threads)
+        .map(|_| {
+            let blob = blob.clone();
+            let barrier = barrier.clone();
+            let a = a.clone();
+            std::thread::spawn(move || {
+                let rt = tokio::runtime::Builder::new_current_thread().enable_all().build().unwrap();
+                barrier.wait();
+                rt.block_on(blob.delete(&a)).is_ok()
+            })
+        })
+        .collect();
+    let oks = handles.into_iter().map(|h| h.join().unwrap()).filter(|x| *x).count();
+    for key in store.scan("_blob:chunk:") {
+        if let Ok(mut t) = store.get(&key) {
+            t.set("_created", TensorValue::Scalar(ScalarValue::Int(0)));
+            store.put(&key, t).unwrap();
+        }
+    }
+    let _ = rt0.block_on(blob.gc());
+    match rt0.block_on(blob.get(&b)) {
+        Ok(x) if x == d => {}
+        Ok(_) => return Some("twin reads back different bytes".into()),
+        Err(e) => {
+            return Some(format!(
+                "{threads} threads deleted the same {nchunks}-chunk artifact at the same moment ({oks} succeeded); chunks aged, gc run; the twin artifact with the same content is unreadable: {e}"
+            ))
+        }
+    }
+    match blob.verify(&b) {
+        Ok(true) => None,
+        other => Some(format!("twin artifact does not verify after concurrent deletes of its sibling: {:?}", other.map_err(|e| e.to_string()))),
+    }
+}
+
 fn main() {
     let args = Args::parse();
     quiet_panics();
@@ -765,6 +819,70 @@ fn main() {
             "corpus dedup within one artifact",
         );
         dist.add("corpus", 4);
+        // a chunk repeated inside ONE artifact and shared with another artifact; delete the repeating one;
+        // incremental gc once the chunks are old enough; the sharer must stay readable (put and stream)
+        let rep = vec![7u8, 7, 7, 7, 7, 7, 7, 7, 7, 7, 7, 7]; // cs=4: the same chunk three times
+        push_trace(
+            &mut trace,
+            4,
+            &[Op::Put(rep.clone()), Op::Put(vec![7, 7, 7, 7, 1]), Op::Delete(0), Op::Advance(3000), Op::Gc, Op::Get(1), Op::Verify(1), Op::Stats],
+            "corpus repeated chunk in one artifact, shared, delete, aged gc (put)",
+        );
+        push_trace(
+            &mut trace,
+            4,
+            &[
+                Op::Open,
+                Op::Write(0, rep[..6].to_vec()),
+                Op::Write(0, rep[6..].to_vec()),
+                Op::Finish(0),
+                Op::Put(vec![7, 7, 7, 7]),
+                Op::Advance(2000),
+                Op::Delete(0),
+                Op::Gc,
+                Op::Get(1),
+                Op::Advance(2000),
+                Op::Gc,
+                Op::Get(1),
+            ],
+            "corpus repeated chunk in one artifact, shared, delete, aged gc (stream)",
+        );
+        push_trace(
+            &mut trace,
+            2,
+            &[Op::Put(vec![3, 3, 0, 0, 3, 3]), Op::Put(vec![3, 3, 3, 3, 3]), Op::Delete(1), Op::Advance(5000), Op::Gc, Op::Get(0), Op::Delete(0), Op::Gc, Op::Stats],
+            "corpus repeated chunk, both artifacts repeat it",
+        );
+        // a writer whose latest chunk is a dedup hit; the owner of that chunk is deleted; full_gc / repair
+        // before finish
+        for (collector, label) in [(Op::FullGc, "full_gc"), (Op::Repair, "repair")] {
+            push_trace(
+                &mut trace,
+                4,
+                &[Op::Put(vec![1, 2, 3, 4]), Op::Open, Op::Write(1, vec![1, 2, 3, 4]), Op::Delete(0), collector.clone(), Op::Finish(1), Op::Get(1), Op::Verify(1)],
+                &format!("corpus in-flight writer, latest chunk a dedup hit, owner deleted, {label} before finish"),
+            );
+            push_trace(
+                &mut trace,
+                4,
+                &[
+                    Op::Put(vec![1, 2, 3, 4, 9, 9, 9, 9]),
+                    Op::Open,
+                    Op::Write(1, vec![5, 5, 5, 5, 1, 2]),
+                    Op::Write(1, vec![3, 4, 9, 9]),
+                    Op::Delete(0),
+                    collector.clone(),
+                    Op::Write(1, vec![9, 9]),
+                    collector.clone(),
+                    Op::Advance(3000),
+                    Op::Gc,
+                    Op::Finish(1),
+                    Op::Get(1),
+                ],
+                &format!("corpus in-flight writer, new chunk then dedup hits, owner deleted, {label} twice before finish"),
+            );
+        }
+        dist.add("corpus", 7);
     }
 
     // ---- boundary sizes x chunk sizes x random partitions
@@ -898,6 +1016,19 @@ fn main() {
         if let Some(what) = res {
             dist.hit("stress.barrier_hit");
             hits.push("concurrent-refcount", &what, json!({"barrier_seed": seed, "threads": threads, "reps": 40}));
+        }
+    }
+
+    let drounds = args.budget(16, 200);
+    for i in 0..drounds {
+        let threads = 2 + (i % 2);
+        let seed = rng.next();
+        let res = double_delete_round(seed, threads, 300);
+        dist.hit("stress.double_delete");
+        stress.push(&format!("{seed}"), &format!("double-delete stress seed={seed} threads={threads} chunks=300 -> {:?}", res), true);
+        if let Some(what) = res {
+            dist.hit("stress.double_delete_hit");
+            hits.push("concurrent-delete", &what, json!({"double_delete_seed": seed, "threads": threads, "chunks": 300}));
         }
     }
 
